@@ -12,6 +12,9 @@
  T13 `if c: ...; return` followed by the rest -> the rest moved into `else:`
  T14 every non-trivial `if` test via a local (`_c = <test>; if _c:`)
  T15 every `await f(...)` via a local (`_a = f(...); await _a`)      T16 T11..T15 combined
+ T17 every `for x in <expr>` source via a local                        T18 a call that is the only positional argument of a statement-level call hoisted
+ T19 `self.<field>.<method>(...)` statements with the receiver via a local (`_o = self.<field>; _o.<method>(...)`)
+ T20 T17+T18+T19 combined
 """
 import ast, os, shutil, subprocess, sys, tempfile
 sys.path.insert(0, os.path.dirname(os.path.dirname(os.path.abspath(__file__))))
@@ -175,6 +178,39 @@ class AwaitViaLocal(_Blocks):
         return [st]
 
 
+class ForViaLocal(_Blocks):
+    def rewrite(self, st, n):
+        if isinstance(st, ast.For) and not isinstance(st.iter, (ast.Name, ast.Tuple, ast.List)):
+            nm = f"_it{n}"
+            pre = ast.Assign(targets=[ast.Name(id=nm, ctx=ast.Store())], value=st.iter)
+            st.iter = ast.Name(id=nm, ctx=ast.Load())
+            return [pre, st]
+        return [st]
+
+
+class HoistArg(_Blocks):
+    def rewrite(self, st, n):
+        v = st.value if isinstance(st, (ast.Expr, ast.Assign)) else None
+        if isinstance(v, ast.Call) and len(v.args) == 1 and not v.keywords and isinstance(v.args[0], ast.Call) and not isinstance(v.func, ast.Name):
+            nm = f"_h{n}"
+            pre = ast.Assign(targets=[ast.Name(id=nm, ctx=ast.Store())], value=v.args[0])
+            v.args[0] = ast.Name(id=nm, ctx=ast.Load())
+            return [pre, st]
+        return [st]
+
+
+class ReceiverViaLocal(_Blocks):
+    def rewrite(self, st, n):
+        v = st.value if isinstance(st, ast.Expr) else None
+        if isinstance(v, ast.Call) and isinstance(v.func, ast.Attribute) and isinstance(v.func.value, ast.Attribute) and isinstance(v.func.value.value, ast.Name) \
+                and v.func.value.value.id == "self" and not any(isinstance(x, (ast.Await, ast.Call)) for a in v.args for x in ast.walk(a)):
+            nm = f"_o{n}"
+            pre = ast.Assign(targets=[ast.Name(id=nm, ctx=ast.Store())], value=v.func.value)
+            v.func.value = ast.Name(id=nm, ctx=ast.Load())
+            return [pre, st]
+        return [st]
+
+
 def transform(root, which):
     for p in files(root):
         src = open(p).read()
@@ -203,6 +239,12 @@ def transform(root, which):
             tree = TestViaLocal().visit(tree)
         if which in ("T15", "T16"):
             tree = AwaitViaLocal().visit(tree)
+        if which in ("T17", "T20"):
+            tree = ForViaLocal().visit(tree)
+        if which in ("T18", "T20"):
+            tree = HoistArg().visit(tree)
+        if which in ("T19", "T20"):
+            tree = ReceiverViaLocal().visit(tree)
         ast.fix_missing_locations(tree)
         out = ast.unparse(tree)
         compile(out, p, "exec")
@@ -213,7 +255,7 @@ def transform(root, which):
 
 def main():
     bad = 0
-    for which in sys.argv[1:] or ["T1", "T2", "T3", "T4", "T5", "T6", "T7", "T8", "T9", "T10", "T11", "T12", "T13", "T14", "T15", "T16"]:
+    for which in sys.argv[1:] or ["T1", "T2", "T3", "T4", "T5", "T6", "T7", "T8", "T9", "T10", "T11", "T12", "T13", "T14", "T15", "T16", "T17", "T18", "T19", "T20"]:
         tmp = tempfile.mkdtemp(prefix="tpsa-preserve-")
         try:
             shutil.copytree("/repo/src", os.path.join(tmp, "src"), ignore=shutil.ignore_patterns("__pycache__", "*.egg-info"))
